@@ -330,26 +330,21 @@ theorem regTree_spec (m : Meta) (l : List Node) (hl : l ≠ []) (pend : Option I
           · cases e
           · exact a g hg
       | plain n =>
-        have hr : regTree m (Node.plain n :: nd2 :: rest) pend =
-            (if (regTree m (nd2 :: rest) pend).1 = .never then (Interest.sometimes, (regTree m (nd2 :: rest) pend).2)
-             else regTree m (nd2 :: rest) pend) := by
+        have hr : regTree m (Node.plain n :: nd2 :: rest) pend = regTree m (nd2 :: rest) pend := by
           simp [regTree, nodeInterest, Node.isFilt]
-          first | rfl | (split <;> rfl)
         rw [hr]
-        obtain ⟨p1, p2⟩ := pick_always (regTree m (nd2 :: rest) pend)
-        obtain ⟨_, i2⟩ := ihb pend
+        obtain ⟨i1, i2⟩ := ihb pend
         constructor
-        · intro h; exact absurd h p1
+        · intro h; obtain ⟨g, hg, he⟩ := i1 h; exact ⟨g, List.mem_cons_of_mem _ hg, he⟩
         · intro h
-          obtain ⟨ha, hb⟩ := p2 h
-          obtain ⟨a, b⟩ := i2 ha
-          refine ⟨?_, by rw [hb, b, pendAfter_cons_other m pend (Node.plain n) (nd2 :: rest) rfl]⟩
+          obtain ⟨a, b⟩ := i2 h
+          refine ⟨?_, by rw [b, pendAfter_cons_other m pend (Node.plain n) (nd2 :: rest) rfl]⟩
           intro g hg
           rcases List.mem_cons.mp hg with e | hg
           · cases e
           · exact a g hg
       | glob g0 =>
-        obtain ⟨_, i2⟩ := ihb pend
+        obtain ⟨i1, i2⟩ := ihb pend
         by_cases h0 : callsiteF g0 m = .never
         · have hr : regTree m (Node.glob g0 :: nd2 :: rest) pend = (.never, none) := by
             simp [regTree, nodeInterest, Node.isFilt, h0]
@@ -362,18 +357,14 @@ theorem regTree_spec (m : Meta) (l : List Node) (hl : l ≠ []) (pend : Option I
             exact ⟨by intro h; simp at h, by intro h; simp at h⟩
           · have ha : callsiteF g0 m = .always := by
               cases hc : callsiteF g0 m <;> simp_all
-            have hr : regTree m (Node.glob g0 :: nd2 :: rest) pend =
-                (if (regTree m (nd2 :: rest) pend).1 = .never then (Interest.sometimes, (regTree m (nd2 :: rest) pend).2)
-                 else regTree m (nd2 :: rest) pend) := by
+            have hr : regTree m (Node.glob g0 :: nd2 :: rest) pend = regTree m (nd2 :: rest) pend := by
               simp [regTree, nodeInterest, Node.isFilt, ha]
             rw [hr]
-            obtain ⟨p1, p2⟩ := pick_always (regTree m (nd2 :: rest) pend)
             constructor
-            · intro h; exact absurd h p1
+            · intro h; obtain ⟨g, hg, he⟩ := i1 h; exact ⟨g, List.mem_cons_of_mem _ hg, he⟩
             · intro h
-              obtain ⟨hia, hb⟩ := p2 h
-              obtain ⟨a, b⟩ := i2 hia
-              refine ⟨?_, by rw [hb, b, pendAfter_cons_other m pend (Node.glob g0) (nd2 :: rest) rfl]⟩
+              obtain ⟨a, b⟩ := i2 h
+              refine ⟨?_, by rw [b, pendAfter_cons_other m pend (Node.glob g0) (nd2 :: rest) rfl]⟩
               intro g hg
               rcases List.mem_cons.mp hg with e | hg
               · cases e; exact ha
